@@ -313,6 +313,25 @@ class TopoModel(Model):
                 if own is not None and not isinstance(own, Exception):
                     ev.append(('disconnect', s, (own.name, p.name)))
             ev.append(('remove_service', s))
+        if exp and 'c08' in self.oracles:
+            for n in sorted(names):
+                if nodes[n].type in (NodeType.Switch, NodeType.Facility):
+                    for sn in sorted(nodes[n].network_services.keys())[:1]:
+                        ev.append(('sub_remove_node_service', n, sn))
+            owned = sorted(raw.name(x) for x in raw.by_class(NS) if raw.owner(x) and raw.cls(sorted(raw.owner(x))[0]) == COMP)
+            for sn in owned[:2]:
+                ev.append(('remove_service_owned', sn))
+            # disconnecting a port through a service it is NOT connected to must not touch anything
+            for s in tops:
+                for other in tops:
+                    if other == s:
+                        continue
+                    for si in self.service(other).interface_list:
+                        for p in (si.get_peers() or [])[:1]:
+                            own = self.t.get_owner_node(p)
+                            if own is not None and p.type != InterfaceType.ServicePort:
+                                ev.append(('disconnect', s, (own.name, p.name)))
+                        break
         if exp and 's1' in tops and 's2' in tops:
             ev.append(('peer', 's1', 's2'))
             ev.append(('unpeer', 's1', 's2'))
@@ -606,6 +625,8 @@ class TopoModel(Model):
             self.handles['service'] = s
         elif k == 'sub_remove_node_service':
             self.node(ev[1]).remove_network_service(ev[2])
+        elif k == 'remove_service_owned':
+            t.remove_network_service(ev[1])
         else:
             raise AssertionError(f'unknown event {ev}')
         return None
@@ -820,7 +841,7 @@ def c07_views(model: TopoModel, raw: Raw, scopes_ok):
 
 
 # ================================================================================================ C08 oracles
-REMOVALS = {'remove_node', 'remove_facility', 'remove_switch', 'remove_component', 'remove_service', 'disconnect', 'unpeer',
+REMOVALS = {'remove_node', 'remove_facility', 'remove_switch', 'remove_component', 'remove_service', 'remove_service_owned', 'disconnect', 'unpeer',
             'remove_sub', 'prune', 'sub_remove_link', 'sub_remove_ns_interface', 'sub_remove_node_service'}
 
 
@@ -859,6 +880,11 @@ def c08_targets(pre: Raw, ev):
         if s is None:
             return ('unspecified', 'ambiguous')
         T = {s} | pre.owned(s)
+    elif k == 'remove_service_owned':
+        s = _find(pre, NS, ev[1])
+        if s is None:
+            return ('unspecified', 'ambiguous')
+        T = {s} | pre.owned(s)
     elif k == 'sub_remove_ns_interface':
         n = _find(pre, NN, ev[1])
         s = _find(pre, NS, ev[2], pre.nb(n, 'has', NS)) if n else None
@@ -877,8 +903,10 @@ def c08_targets(pre: Raw, ev):
         if s is None or port is None:
             return ('unspecified', 'ambiguous')
         sp = [y for l, y in _peers(pre, port) if pre.typ(y) == 'ServicePort' and s in pre.owner(y)]
+        if len(sp) == 0:
+            return ('no-change', 'the port is not connected to this service')
         if len(sp) != 1:
-            return ('unspecified', 'port not connected to this service')
+            return ('unspecified', 'port connected to this service more than once')
         T = {sp[0]}
     elif k == 'unpeer':
         a = _find(pre, NS, ev[1], [x for x in pre.by_class(NS) if not pre.owner(x)])
@@ -964,6 +992,11 @@ def c08_check(model: TopoModel, pre: Raw, ev, outcome):
     verdict = c08_targets(pre, ev)
     post = model.raw()
     if verdict[0] == 'unspecified':
+        return v
+    if verdict[0] == 'no-change':
+        if pre.exact() != post.exact():
+            gone = sorted(f'{pre.cls(x)}:{pre.name(x)}' for x in set(pre.nodes) - set(post.nodes))
+            v.append((f'c08/{k}/not-applicable-changed-model', f'{ev}: {verdict[1]}; the call ({outcome[0]}) removed {gone}'))
         return v
     if verdict[0] == 'must-raise':
         if outcome[0] == 'ok':
